@@ -315,6 +315,12 @@ def gen_op(r, depth):
     if k == "Custom":
         c["desc"] = r.choice(["", "a description", "ünï ✓", "ends with a newline\n", "  indented"])
         c["ext"] = r.choice(["some.ext", "", "verif.test"])
+        # names are free text: bare, qualified with the operation's own extension id (as some writers do), qualified
+        # with another prefix, starting with a dot, padded, non-ASCII
+        c["opname"] = r.choice(["op", c["ext"] + ".op", c["ext"] + ".op", "other.ext.op", ".hidden", " op ", "öp",
+                                c["ext"] + "." + c["ext"] + ".op"])
+    if k == "FuncDecl":
+        c["name"] = r.choice(["decl", "", "a.b::c", " decl\n", "ƒ", "main"])
     if k == "ExtOp":
         c["desc"] = r.choice(["", "def description"])
     return c
@@ -379,9 +385,10 @@ def build_op(c, B):
         return ops.FuncDefn(c["name"], row(c["body"][1]), [B.param(p) for p in c["params"]],
                             row(c["body"][2]))
     if k == "FuncDecl":
-        return ops.FuncDecl("decl", tys.PolyFuncType([B.param(p) for p in c["params"]], B.func(c["body"])))
+        return ops.FuncDecl(c.get("name", "decl"),
+                            tys.PolyFuncType([B.param(p) for p in c["params"]], B.func(c["body"])))
     if k == "Custom":
-        return ops.Custom("op", tys.FunctionType(row(c["ins"]), row(c["outs"])), c["desc"], c["ext"],
+        return ops.Custom(c.get("opname", "op"), tys.FunctionType(row(c["ins"]), row(c["outs"])), c["desc"], c["ext"],
                           [B.arg(a) for a in c["args"]])
     if k == "ExtOp":
         e = ext.Extension("gen.ext", ext.Version(1, 0, 0))
@@ -487,9 +494,9 @@ def wire_op(c):
         # (a function definition is built from rows; it declares no requirements of its own)
         return {"op": k, "name": c["name"], "signature": wire_poly(c["params"], [*c["body"][:3], []])}
     if k == "FuncDecl":
-        return {"op": k, "name": "decl", "signature": wire_poly(c["params"], c["body"])}
+        return {"op": k, "name": c.get("name", "decl"), "signature": wire_poly(c["params"], c["body"])}
     if k == "Custom":
-        return {"op": "Extension", "extension": c["ext"], "name": "op", "signature": fn(c["ins"], c["outs"]),
+        return {"op": "Extension", "extension": c["ext"], "name": c.get("opname", "op"), "signature": fn(c["ins"], c["outs"]),
                 "description": c["desc"], "args": [wire_arg(a) for a in c["args"]]}
     if k == "ExtOp":
         # an operation backed by a definition is written as hugr-core's ExtensionOp::make_opaque writes it: extension
